@@ -507,16 +507,14 @@ func (Prop) Run(p *core.Plan) *core.Result {
 				res.Violation = v
 				return finish(res, &w, interp, in)
 			}
-			if sig.firstTrue != 0 && inCallee(out, sig) {
-				res.Probes["signal_observed_inside_callee"]++
+			if sig.firstTrue != 0 && interp == "v1" && len(w.Scripts) > 1 {
+				res.Probes["signal_observed_in_program_with_use"]++
 			}
 		}
 	}
 	res.Sample = map[string]interface{}{"main.p": src["main.p"], "interps": w.Interps}
 	return res
 }
-
-func inCallee(out runOut, sig *signal) bool { return false }
 
 func srcKeys(m map[string]string) []string {
 	var ks []string
